@@ -7,7 +7,7 @@ namespace Glom.C04
 
 /-! ### what `WF` pins down -/
 
-theorem WF_eq {F : Facts} (h : WF F = true) : F = docFacts F.wrapTypeInTry F.attrGuarded := by
+theorem WF_eq {F : Facts} (h : WF F = true) : F = docFacts F.attrGuarded := by
   unfold WF at h
   exact eq_of_beq h
 
@@ -22,6 +22,7 @@ structure WFParts (F : Facts) : Prop where
   copyFallback : F.copyFallback = true
   wrapArgsCheck : F.wrapArgsCheck = true
   wrapFallback : F.wrapFallback = true
+  wrapTypeInTry : F.wrapTypeInTry = true
   errTest : F.errTestTruthy = false
   tmeCopy : F.tmeCopyFixed = false
   frameCatch : F.frameCatch = ["Exception"]
@@ -45,6 +46,7 @@ theorem WF_parts {F : Facts} (h : WF F = true) : WFParts F := by
       copyFallback := congrArg Facts.copyFallback e
       wrapArgsCheck := congrArg Facts.wrapArgsCheck e
       wrapFallback := congrArg Facts.wrapFallback e
+      wrapTypeInTry := congrArg Facts.wrapTypeInTry e
       errTest := congrArg Facts.errTestTruthy e
       tmeCopy := congrArg Facts.tmeCopyFixed e
       frameCatch := congrArg Facts.frameCatch e
@@ -359,14 +361,14 @@ theorem isInst_self (e : ExcObj) : isInst e e.cls.name = true := by
 /-- what `type(name, bases, …)` in `GlomError.wrap` yields, when it yields a class -/
 theorem wrapClass_cases {c wc : ClassInfo} (h : wrapClass c = some wc) :
     (glomMro.contains c.name = true ∧ wc.bases = glomMro ∧ wc.ctor = some ∧ wc.frozen = false ∧
-      wc.copyVia = .args) ∨
+      wc.copyVia = .args ∧ wc.boolRaises = false) ∨
     (glomMro.contains c.name = false ∧ c.sealed = false ∧ wrapMro c.mro = some wc.bases ∧ wc.ctor = c.ctor ∧
-      wc.frozen = c.frozen ∧ wc.copyVia = c.copyVia ∧ wc.falsy = c.falsy) := by
+      wc.frozen = c.frozen ∧ wc.copyVia = c.copyVia ∧ wc.falsy = c.falsy ∧ wc.boolRaises = c.boolRaises) := by
   unfold wrapClass at h
   by_cases hg : glomMro.contains c.name = true
   · rw [if_pos hg] at h
     cases h
-    exact Or.inl ⟨hg, rfl, rfl, rfl, rfl⟩
+    exact Or.inl ⟨hg, rfl, rfl, rfl, rfl, rfl⟩
   · rw [if_neg hg] at h
     by_cases hs : c.sealed = true
     · rw [if_pos hs] at h; cases h
@@ -377,7 +379,7 @@ theorem wrapClass_cases {c wc : ClassInfo} (h : wrapClass c = some wc) :
         rw [hm] at h
         simp only [Option.map_some, Option.some.injEq] at h
         subst h
-        exact Or.inr ⟨by simpa using hg, by simpa using hs, rfl, rfl, rfl, rfl, rfl⟩
+        exact Or.inr ⟨by simpa using hg, by simpa using hs, rfl, rfl, rfl, rfl, rfl, rfl⟩
 
 theorem wrapClass_has_glom {c wc : ClassInfo} (h : wrapClass c = some wc) :
     wc.mro.contains "GlomError" = true := by
@@ -410,11 +412,11 @@ def Faithful (e out : ExcObj) : Prop := isInst out e.cls.name = true ∧ out.arg
 
 theorem Faithful.refl (e : ExcObj) : Faithful e e := ⟨isInst_self e, rfl⟩
 
-/-- the classes the handler copes with: the `type(…)` call succeeds or is guarded, attribute
-    assignment on a GlomError instance succeeds or is guarded, `copy.copy` keeps the class -/
+/-- the classes the handler copes with: attribute assignment on a GlomError instance succeeds or is
+    guarded, so does `bool(e)` (evaluated when `_finalize` formats the traceback), `copy.copy` keeps the class -/
 structure Tame (F : Facts) (c : ClassInfo) : Prop where
-  typeOk : F.wrapTypeInTry = true ∨ (wrapClass c).isSome = true ∨ c.mro.contains "GlomError" = true
   attrOk : c.mro.contains "GlomError" = true → (F.attrGuarded = true ∨ c.frozen = false)
+  boolOk : F.attrGuarded = true ∨ c.boolRaises = false
   copyOk : c.copyVia ≠ .foreign
 
 /-! ### `GlomError.wrap` and `copy.copy` under the guards -/
@@ -500,8 +502,16 @@ theorem glomErr_finish {F : Facts} (w : WFParts F) (e : ExcObj) (ht : Tame F e.c
     simp only [hfz, if_true, hga, finish, isInst, hgm]
     exact ⟨e, rfl, .orig rfl, rfl⟩
   · have hfz' : e.cls.frozen = false := by simpa using hfz
-    simp only [hfz', Bool.false_eq_true, if_false, finish, isInst, hgm, if_true, w.errTest, Bool.false_and]
-    exact ⟨_, rfl, .copy rfl rfl rfl hg, rfl⟩
+    by_cases hbr : e.cls.boolRaises = true
+    · have hga : F.attrGuarded = true := by
+        rcases ht.boolOk with h | h
+        · exact h
+        · rw [hbr] at h; cases h
+      simp only [hfz', Bool.false_eq_true, if_false, finish, isInst, hgm, if_true, hbr, hga]
+      exact ⟨e, rfl, .orig rfl, rfl⟩
+    · have hbr' : e.cls.boolRaises = false := by simpa using hbr
+      simp only [hfz', Bool.false_eq_true, if_false, finish, isInst, hgm, if_true, hbr', w.errTest, Bool.false_and]
+      exact ⟨_, rfl, .copy rfl rfl rfl hg, rfl⟩
 
 /-- the other branch ends in the original or in an instance of the wrapper class -/
 theorem wrap_finish {F : Facts} (w : WFParts F) (e : ExcObj) (ht : Tame F e.cls)
@@ -512,12 +522,7 @@ theorem wrap_finish {F : Facts} (w : WFParts F) (e : ExcObj) (ht : Tame F e.cls)
   unfold wrap
   cases hwc : wrapClass e.cls with
   | none =>
-    have hty : F.wrapTypeInTry = true := by
-      rcases ht.typeOk with h | h | h
-      · exact h
-      · rw [hwc] at h; cases h
-      · rw [hgm] at h; cases h
-    simp only [hty, w.wrapFallback, Bool.and_self, if_true, finish, hg, Bool.false_eq_true, if_false]
+    simp only [w.wrapTypeInTry, w.wrapFallback, Bool.and_self, if_true, finish, hg, Bool.false_eq_true, if_false]
     exact ⟨e, rfl, .orig rfl, Or.inl rfl⟩
   | some wc =>
     simp only [w.wrapArgsCheck, w.wrapFallback, Bool.true_and, if_true]
@@ -536,8 +541,16 @@ theorem wrap_finish {F : Facts} (w : WFParts F) (e : ExcObj) (ht : Tame F e.cls)
           simp only [hfz', Bool.false_eq_true, if_false, finish]
           have hig : isInst (ExcObj.mk (e.id + 1) wc e.args e.args none none (some e.id)) "GlomError" = true :=
             wrapClass_has_glom hwc
-          simp only [hig, if_true, Bool.false_eq_true, if_false, w.errTest, Bool.false_and]
-          exact ⟨_, rfl, .wrapper wc hwc rfl rfl rfl ⟨rfl, rfl⟩ hfz', Or.inr ⟨wc, rfl, rfl, hfz'⟩⟩
+          by_cases hbr : e.cls.boolRaises = true
+          · have hga : F.attrGuarded = true := by
+              rcases ht.boolOk with h | h
+              · exact h
+              · rw [hbr] at h; cases h
+            simp only [hig, if_true, hbr, hga]
+            exact ⟨e, rfl, .orig rfl, Or.inl rfl⟩
+          · have hbr' : e.cls.boolRaises = false := by simpa using hbr
+            simp only [hig, if_true, Bool.false_eq_true, if_false, hbr', w.errTest, Bool.false_and]
+            exact ⟨_, rfl, .wrapper wc hwc rfl rfl rfl ⟨rfl, rfl⟩ hfz', Or.inr ⟨wc, rfl, rfl, hfz'⟩⟩
       · simp only [bne_iff_ne, ne_eq, ha, not_false_eq_true, if_true, finish, hg,
           Bool.false_eq_true, if_false]
         exact ⟨e, rfl, .orig rfl, Or.inl rfl⟩
@@ -548,6 +561,8 @@ theorem wrap_finish_glom {F : Facts} (w : WFParts F) (e : ExcObj)
     ∃ out, finish F e (wrap F e) = .exc out ∧ isInst out "GlomError" = true := by
   obtain ⟨wc, hwc⟩ := Option.isSome_iff_exists.mp hwc
   have hfz : e.cls.frozen = false := by
+    simp only [extensible, Bool.and_eq_true, Bool.not_eq_true'] at hext; exact hext.1.2
+  have hbr : e.cls.boolRaises = false := by
     simp only [extensible, Bool.and_eq_true, Bool.not_eq_true'] at hext; exact hext.2
   have hctor : wc.ctor e.args = some e.args ∧ wc.frozen = false := by
     rcases wrapClass_cases hwc with ⟨_, _, hc, hf, _⟩ | ⟨_, _, _, hc, hf, _⟩
@@ -559,7 +574,7 @@ theorem wrap_finish_glom {F : Facts} (w : WFParts F) (e : ExcObj)
     finish]
   have hig : isInst (ExcObj.mk (e.id + 1) wc e.args e.args none none (some e.id)) "GlomError" = true :=
     wrapClass_has_glom hwc
-  simp only [hig, if_true, Bool.false_eq_true, if_false, w.errTest, Bool.false_and]
+  simp only [hig, if_true, Bool.false_eq_true, if_false, hbr, w.errTest, Bool.false_and]
   exact ⟨_, rfl, hig⟩
 
 /-! ### the handler -/
@@ -635,11 +650,9 @@ theorem Raised.tame {F : Facts} {e out : ExcObj} (h : Raised e out) (ht : Tame F
   | copy hc _ _ _ => rw [hc]; exact ht
   | wrapper wc hwc hc _ _ _ hfz =>
     rw [hc]
-    have hgl := wrapClass_has_glom hwc
-    refine ⟨Or.inr (Or.inr hgl), fun _ => Or.inr hfz, ?_⟩
-    rcases wrapClass_cases hwc with ⟨_, _, _, _, hk⟩ | ⟨_, _, _, _, _, hk, _⟩
-    · rw [hk]; intro h; cases h
-    · rw [hk]; exact ht.copyOk
+    rcases wrapClass_cases hwc with ⟨_, _, _, _, hk, hb⟩ | ⟨_, _, _, _, _, hk, _, hb⟩
+    · exact ⟨fun _ => Or.inr hfz, Or.inr hb, by rw [hk]; intro h; cases h⟩
+    · exact ⟨fun _ => Or.inr hfz, by rw [hb]; exact ht.boolOk, by rw [hk]; exact ht.copyOk⟩
 
 theorem glomMro_length {x : String} (h : x ∈ glomMro) : x.length ≤ 13 := by
   simp only [glomMro, List.mem_cons, List.not_mem_nil, or_false] at h
@@ -1098,5 +1111,31 @@ theorem matchesAny_mono {e out : ExcObj} (h : ∀ c, isInst e c = true → isIns
   simp only [matchesAny, List.any_eq_true] at hm ⊢
   obtain ⟨c, hc, hi⟩ := hm
   exact ⟨c, hc, h c hi⟩
+
+end Glom.C04
+
+namespace Glom.C04
+
+/-! ### the conversions of glom's own `try` blocks, with the documented `except` clauses -/
+
+def docCatch : Conv → List String
+  | .iter | .path => ["Exception"]
+  | .getattr => ["AttributeError"]
+  | .getitem => ["KeyError", "IndexError", "TypeError", "ValueError"]
+
+def docRaises : Conv → String
+  | .iter => "TypeError"
+  | _ => "PathAccessError"
+
+theorem conv_eval (E : EvalEnv) (w : WFParts E.F) (k : Conv) :
+    eval E (.faultConv k) =
+      (if matchesAny E.inj (docCatch k) then .exc (E.internal (docRaises k)) else .exc E.inj) := by
+  simp only [eval, frameG_id]
+  cases k <;>
+    simp only [Facts.convCatch, Facts.convRaises, w.iterCatch, w.iterRaises, w.getitemCatch, w.getattrCatch,
+      w.pathCatch, docCatch, docRaises] <;> rfl
+
+/-- nothing raised: the computed value is returned, never the default (by definition of the model) -/
+theorem glomTop_val (F : Facts) (s : Settings) : glomTop F s .val = .value := rfl
 
 end Glom.C04
